@@ -52,6 +52,12 @@ try:
         b = sh(f"python3 /verif/tools/baseline_check.py {wt} -n 6")
         meta["suite"] = b.stdout.strip().splitlines()[:3]
         meta["suite_ok"] = b.returncode == 0
+    elif (out / "meta.json").exists():
+        prev = json.loads((out / "meta.json").read_text())
+        if "suite_ok" in prev and prev["suite_ok"] is not None:
+            meta["suite"] = prev.get("suite")
+            meta["suite_ok"] = prev["suite_ok"]
+            meta["suite_checked_in_earlier_run"] = True
 finally:
     sh(f"git -C {wt} checkout -- .")
 print("demo clean/patched:", rc0, meta.get("demo_patched_exit"), "suite_ok:", meta.get("suite_ok"))
